@@ -212,9 +212,66 @@ def run_derived(chk, spec):
 			f"w = v.{spec['op']} (n={n}, {kind}) shares v's storage tuple")
 
 
+def run_table_sharing(chk, spec):
+	"""a table one of whose columns shares a caller tuple with a live vector: writes to the OTHER columns are never refused; writes to the sharing column
+	are refused only while the sharer lives; and a table built from one vector twice has two separate columns"""
+	import random
+	rng = random.Random(spec["seed"])
+	n, c, pos = spec["n"], spec["c"], spec["pos"]
+	chk.judged("sharing", ("table-sharing", spec["scenario"], c, pos, spec["form"]))
+	if spec["scenario"] == "same-vector-twice":
+		v = Vector([rng.choice([1, 2, 3]) for _ in range(n)], name="v")
+		o = call({"ctor": lambda: Table([v, v]), "rshift": lambda: v >> v, "ctor3": lambda: Table([v, v, v]), "t>>col": lambda: (lambda t: t >> t.cols()[0])(Table([v]))}[spec["form"]])
+		if not o.ok or not isinstance(o.value, Table) or len(o.value.cols()) < 2:
+			chk.skip("table-sharing-unavailable")
+			return
+		t = o.value
+		cols = t.cols()
+		if any(cols[i] is cols[j] for i in range(len(cols)) for j in range(i + 1, len(cols))):
+			chk.fail("table columns share storage with no other live vector", f"alias/one-column-object-twice/{spec['form']}", f"{spec!r}: two positions of the table hold the same column object")
+			return
+		before = [list(x._underlying) for x in cols]
+		w = call(lambda: cols[0].__setitem__(0, 99))
+		if not w.ok:
+			chk.fail("copies, slices, operation results and table columns are always writable", f"alias/library-result-shares-storage/same-vector-twice/{spec['form']}", f"{spec!r}: writing column 0 raised {w!r}")
+			return
+		after = [list(x._underlying) for x in t.cols()]
+		if after[1:] != before[1:] or list(v) != before[0]:
+			chk.fail("two live vectors never observe each other's writes", f"alias/leaked-write/same-vector-twice/{spec['form']}", f"{spec!r}: write to column 0 changed {before} -> {after} (source {list(v)})")
+		return
+	tp = tuple(rng.choice([1, 2, 3, 5]) for _ in range(n))
+	sharer = Vector(tp)
+	pool.mark_caller_built(sharer, id(tp))
+	t = Table([Vector([rng.choice([7, 8, 9]) for _ in range(n)], name=f"c{j}") for j in range(c)])
+	o = call(lambda: setattr(t, f"c{pos}", tp))
+	if not o.ok:
+		chk.skip("table-sharing-setup-failed")
+		return
+	others = [j for j in range(c) if j != pos]
+	j = rng.choice(others)
+	i = rng.randrange(n)
+	form = spec["form"]
+	w = call({"cell-name": lambda: t.__setitem__((i, f"c{j}"), 5), "cell-int": lambda: t.__setitem__((i, j), 5), "column": lambda: t.__setitem__((slice(None), f"c{j}"), [5] * n),
+		"view": lambda: t.cols()[j].__setitem__(i, 5), "names-list": lambda: t.__setitem__((i, [f"c{x}" for x in others]), [5] * len(others)), "mask-rows": lambda: t.__setitem__(([True] + [False] * (n - 1), [f"c{x}" for x in others]), 5)}[form])
+	if not w.ok and isinstance(w.exc, AliasError):
+		chk.fail("a write is refused with AliasError only while another live vector really shares that storage", f"alias/spurious-refusal/other-column-of-a-table-with-a-sharing-column/{form}",
+			f"{spec!r}: column c{pos} shares a caller tuple with a live vector; writing column(s) {others if form in ('names-list', 'mask-rows') else j} raised {w!r}")
+		return
+	# the sharing column itself: refused (or kept local) while the sharer lives, writable once it is gone
+	s1 = call(lambda: t.__setitem__((0, pos), 42))
+	if s1.ok and list(sharer) != list(tp):
+		chk.fail("two live vectors built over the same caller tuple never observe each other's writes", "alias/leaked-write/table-column-over-caller-tuple", f"{spec!r}: the sharer now reads {list(sharer)}")
+		return
+	del sharer
+	gc.collect()
+	s2 = call(lambda: t.__setitem__((0, pos), 43))
+	if not s2.ok:
+		chk.fail("a former sharer whose partners were dropped and collected is writable", "alias/spurious-refusal/former-sharer/table-column", f"{spec!r}: after the sharer was collected t[0, {pos}] = 43 raised {s2!r}")
+
+
 DERIVED_OPS = ["copy", "slice-full", "slice-0-n", "slice-0-big", "slice-neg", "slice-step1", "mask-all", "mask-all-vector", "T", "lshift-empty", "rlshift-empty", "lshift-empty-tuple",
 	"sort", "fillna", "dropna", "pos", "cast-same", "to_object", "index-all", "table-column", "table-column-slice", "unique", "copy-of-copy", "rshift-column", "lshift-none-then-slice"]
-RUNNERS = {"history": run_history, "burst": run_burst, "sharing": run_sharing, "derived": run_derived}
+RUNNERS = {"table_sharing": run_table_sharing, "history": run_history, "burst": run_burst, "sharing": run_sharing, "derived": run_derived}
 
 
 def setup(chk):
@@ -236,6 +293,14 @@ def run(chk):
 		for kind in ("int", "str", "float", "object", "object-nullable"):
 			for n in (1, 2, 5):
 				chk.case("derived", {"op": op, "kind": kind, "n": n, "seed": rng.randrange(10**9)}, "derived")
+	for form in ("ctor", "rshift", "ctor3", "t>>col"):
+		for n in (1, 2, 3):
+			chk.case("table_sharing", {"scenario": "same-vector-twice", "form": form, "n": n, "c": 2, "pos": 0, "seed": rng.randrange(10**9)}, "table-sharing")
+	for form in ("cell-name", "cell-int", "column", "view", "names-list", "mask-rows"):
+		for c in (2, 3):
+			for pos in range(c):
+				for n in (1, 2, 3):
+					chk.case("table_sharing", {"scenario": "shared-column", "form": form, "n": n, "c": c, "pos": pos, "seed": rng.randrange(10**9)}, "table-sharing")
 	idx = 0
 	for w in range(1, 9):
 		for n in (1, 2, 3):
